@@ -131,7 +131,7 @@ class HeapExec(Exec):
     def is_sstr(self, v):
         return isinstance(v, sp.Basic) and not isinstance(v, sp.logic.boolalg.BooleanAtom) and (
             (isinstance(v, sp.Symbol) and v.name.startswith("str:")) or
-            (isinstance(v, sp.core.function.AppliedUndef) and (v.func.__name__.startswith("FMT_") or v.func.__name__ == "SPLIT0")))
+            (isinstance(v, sp.core.function.AppliedUndef) and (v.func.__name__.startswith("FMT_") or v.func.__name__.startswith("STR_") or v.func.__name__ == "SPLIT0")))
 
     def ev_JoinedStr(self, node, env):
         parts, kinds, args, lits = [], [], [], []
@@ -159,6 +159,12 @@ class HeapExec(Exec):
         name = "FMT_" + str(abs(hash(shape)) % 10 ** 10)
         FMT_META[name] = dict(shape=shape, kinds=kinds, nonempty_literal=any(len(x) > 0 for x in lits))
         return sp.Function(name, real=True)(*args)
+
+    def binop(self, op, a, b, node):
+        if isinstance(op, (ast.Add, ast.Mod, ast.Mult)) and (self.is_sstr(a) or self.is_sstr(b)) and (isinstance(a, str) or isinstance(b, str) or (self.is_sstr(a) and self.is_sstr(b))):
+            lift = lambda v: v if isinstance(v, sp.Basic) else sp.Symbol("strlit:" + str(v), real=True)
+            return sp.Function("FMT_concat", real=True)(lift(a), lift(b))
+        return super().binop(op, a, b, node)
 
     def compare(self, op, a, b, node):
         if isinstance(op, (ast.Eq, ast.NotEq)) and (isinstance(a, TypeOf) or isinstance(b, TypeOf)):
@@ -308,3 +314,74 @@ def deepcopy_shim(log):
         import copy
         return copy.deepcopy(x)
     return f
+
+
+# ---------------------------------------------------------------------------------------------
+# ghost file system (C18): open / write / makedirs / savez are recorded as an ordered event list
+class GhostFile:
+    def __init__(self, fs, path, mode):
+        self.fs, self.path, self.mode = fs, path, mode
+        fs.event("open:" + mode, path)
+
+    def write(self, text):
+        self.fs.event("write", self.path)
+
+
+class GhostFS:
+    def __init__(self):
+        self.events = []
+
+    def event(self, kind, path):
+        self.events.append((kind, str(path)))
+
+    def shims(self):
+        fs = self
+
+        def _open(ex, node, path, mode="r"):
+            return GhostFile(fs, path, mode)
+
+        def _join(ex, node, *parts):
+            return "/".join(str(p) for p in parts)
+
+        def _isdir(ex, node, path):
+            return False
+
+        def _makedirs(ex, node, path, **k):
+            fs.event("makedirs", path)
+
+        def _savez(ex, node, path, *a, **k):
+            fs.event("savez", path)
+
+        def _time(ex, node):
+            return sp.Symbol(f"time!{next(_cnt)}", real=True)
+        from .symex import Namespace
+        return dict(open=_open, os=Namespace("os", {"path": Namespace("os.path", {"join": _join, "isdir": _isdir, "isfile": _isdir}), "makedirs": _makedirs}),
+                    np=Namespace("np", {"savez": _savez}), time=Namespace("time", {"time": _time}))
+
+
+def _with_support(cls):
+    def st_With(self, st, env):
+        for item in st.items:
+            v = self.ev(item.context_expr, env)
+            if item.optional_vars is not None:
+                self.assign(item.optional_vars, v, env)
+        self.exec_block(st.body, env)
+    cls.st_With = st_With
+
+    def call_bound_file(self, meth, base, args, kwargs, node):
+        if isinstance(base, GhostFile) and meth == "write":
+            return base.write(args[0] if args else "")
+        return _orig_cb(self, meth, base, args, kwargs, node)
+    _orig_cb = cls.call_bound
+    cls.call_bound = call_bound_file
+
+    def ev_Attribute_file(self, node, env):
+        base = self.ev(node.value, env)
+        if isinstance(base, GhostFile):
+            return ("bound", node.attr, base)
+        return _orig_attr(self, node, env)
+    _orig_attr = cls.ev_Attribute
+    cls.ev_Attribute = ev_Attribute_file
+
+
+_with_support(HeapExec)
